@@ -415,6 +415,28 @@ func run(c *harness.Ctx, i int) {
 	c.Count("cases_with_poisoned_request", 1)
 	c.Count("poisoned_rejected", 1)
 
+	// 3b. the all-zero ID is what Chunk.ID() answers for an object that cannot be decoded: an undecodable object
+	// stored under that ID must not pass for verified (no data hashes to it, so nothing valid can be stored there)
+	if i%5 == 2 && kind != "ssh" {
+		var zero desync.ChunkID
+		junk := make([]byte, 20+rng.Intn(200))
+		rng.Read(junk)
+		b.write(zero, junk)
+		if base3, err := b.open(); err == nil {
+			s3 := wrap(stack, base3, dsu.NewMemStore("cache3"))
+			zc, zerr := s3.GetChunk(zero)
+			if zerr == nil {
+				if zc == nil {
+					c.Violation("nil-chunk", "zero id: GetChunk returned (nil, nil)")
+				} else if zb, derr := zc.Data(); derr != nil || dsu.Sum(zb) != zero {
+					c.Violation("zero-id-accepted", "%s/%s: %d random bytes stored under the all-zero chunk ID: GetChunk returned a chunk and no error although the object does not hash to that ID (Data() says: %v)", kind, stack, len(junk), derr)
+				}
+			}
+			c.Count("zero_id_requests", 1)
+			base3.Close()
+		}
+	}
+
 	// 4. consumers over the poisoned store
 	consumers(c, rng, dir, s2, blob, idx, a, tree)
 	if b.cliLoc != "" && stack == "none" && rng.Intn(2) == 0 {
